@@ -43,6 +43,7 @@ type verifC13Op struct {
 func VerifC13() {
 	verifrt.Preemptions(verifrt.Bound("preempt", 2))
 	verifrt.AtomicSwitch(verifrt.Bound("atomics", 1) == 1)
+	verifrt.RaceDetect(verifrt.Bound("race", 0) == 1)
 	cfgs := verifConfigs()
 	ci := verifrt.Bound("cfg", -1)
 	if ci < 0 {
